@@ -278,8 +278,12 @@ def default_coordinates(case, ctx):
     if far.any():
         ra = zl[far] / zt[far]
         rb = zl[far] / np.conj(zt[far])
-        ok = (np.max(np.abs(ra - ra[0])) < 1e-9 and abs(abs(ra[0]) - 1) < 1e-9) or \
-             (np.max(np.abs(rb - rb[0])) < 1e-9 and abs(abs(rb[0]) - 1) < 1e-9)
+        # the centroid itself is only known to ~eps * array size (in samples); for a sample at distance s from it
+        # that is a relative error eps*size/s in the ratio below
+        ptol = 1e-9 + 256 * np.finfo(float).eps * max(mask.shape) / (np.abs(zt[far]) * dmax)
+        k0 = int(np.argmax(np.abs(zt[far])))             # reference direction from the farthest sample
+        ok = (np.all(np.abs(ra - ra[k0]) < ptol) and abs(abs(ra[k0]) - 1) < 1e-9) or \
+             (np.all(np.abs(rb - rb[k0]) < ptol) and abs(abs(rb[k0]) - 1) < 1e-9)
         if not ok:
             raise Violation("C11.coords.theta", "theta is not the polar angle about the mask centroid")
     j = case["j"]
